@@ -204,6 +204,17 @@ class OpaqueStr:
         return "<opaque-str>"
 
 
+class FormattedNumber(OpaqueStr):
+    """format(x, spec) of a symbolic number with an explicit format spec: opaque as a string (such formatting rounds, so
+    nothing follows from two of them being equal), but a contract can see WHICH number was formatted and how."""
+
+    def __init__(self, expr, spec):
+        self.expr, self.spec = expr, spec
+
+    def __repr__(self):
+        return "<format(%s, %r)>" % (self.expr, self.spec)
+
+
 class ModV:
     def __init__(self, name, path):
         self.name = name
